@@ -51,15 +51,34 @@ Inductive bres := BRan (o : bout) | BOpen.                   (* ran with that ou
 Definition open_key (k : key) := k ++ ":open".
 Definition total_key (k : key) := k ++ ":total".
 Definition fails_key (k : key) := k ++ ":fails".
-Definition breaker_call (m : tmap) (now : Z) (k : key) (rate period ttl min_calls : Z) (o : bout) : tmap * bres * bool (* tripped *) :=
+(* the call starts at `now` (open check, count in the totals window); the wrapped function's outcome is known at `fin` >= now
+   (the failure is counted, the rule evaluated and the breaker opened at that instant) *)
+Definition breaker_call_at (m : tmap) (now fin : Z) (k : key) (rate period ttl min_calls : Z) (o : bout) : tmap * bres * bool (* tripped *) :=
   if isSome (s_look m now (open_key k)) then (m, BOpen, false)
   else
     let '(m1, total) := slice_incr m now (total_key k) (now - period) now 9999 period in
     match o with
     | BFailListed =>
-        let '(m2, fails) := slice_incr m1 now (fails_key k) (now - period) now 9999 period in
+        let '(m2, fails) := slice_incr m1 fin (fails_key k) (fin - period) fin 9999 period in
         if negb (total =? 0) && negb (total <? min_calls) && (rate * total <=? fails * 100)
-        then ((if isSome (s_look m2 now (open_key k)) then m2 else s_write m2 now (open_key k) (VInt 1) ttl), BRan o, true)
+        then ((if isSome (s_look m2 fin (open_key k)) then m2 else s_write m2 fin (open_key k) (VInt 1) ttl), BRan o, true)
         else (m2, BRan o, false)
     | _ => (m1, BRan o, false)
     end.
+(* an instantaneous call *)
+Definition breaker_call (m : tmap) (now : Z) := breaker_call_at m now now.
+
+(* ---- rate_limit at backend-command granularity: the commands of concurrent calls, in the order the backend executes them.
+   A call is one RIncr (its admission is decided by the count that command returns) and, when that count is limit+1 and a
+   ban ttl is set, one RExpire issued later - possibly after commands of other calls and after any delay. ---- *)
+Inductive rcmd := RIncr | RExpire.
+Definition rate_cmd (m : tmap) (now : Z) (k : key) (limit period ttl : Z) (c : rcmd) : tmap * option bool :=
+  match c with
+  | RIncr => match t_incr m now k period with None => (m, Some false) | Some (m1, n) => (m1, Some (negb (limit <? n))) end
+  | RExpire => (t_expire m now k ttl, None)
+  end.
+Fixpoint rate_cmds (m : tmap) (k : key) (limit period ttl : Z) (h : list (Z * rcmd)) : list (option bool) :=
+  match h with
+  | [] => []
+  | (t, c) :: r => snd (rate_cmd m t k limit period ttl c) :: rate_cmds (fst (rate_cmd m t k limit period ttl c)) k limit period ttl r
+  end.
